@@ -482,7 +482,7 @@ SOLVES = [
 
 def gen_case(rng, circuit_friendly=False):
     nv = rng.randint(2, 4)
-    five = not circuit_friendly and rng.random() < 0.08        # five variables over tiny domains: sums with 5 distinct terms
+    five = not circuit_friendly and rng.random() < 0.14        # five variables over tiny domains: sums with 5 distinct terms
     anon = not circuit_friendly and not five and rng.random() < 0.2     # several unnamed helper variables that search has to decide
     if five:
         nv = 5
@@ -515,7 +515,12 @@ def gen_case(rng, circuit_friendly=False):
     if five:
         vs = list(range(5))
         rng.shuffle(vs)
-        cons[0] = [rng.choice(["sum_eq", "sum_le", "sum_ge"]), vs, rng.randint(sum(d[0] for d in doms), sum(d[1] for d in doms))]
+        kind5 = rng.choice(["sum_eq", "sum_le", "sum_ge", "sum_ge"])
+        lo5, hi5 = sum(d[0] for d in doms), sum(d[1] for d in doms)
+        if rng.random() < 0.4:
+            vs = vs[:4]                    # four terms
+            lo5, hi5 = sum(doms[i][0] for i in vs), sum(doms[i][1] for i in vs)
+        cons[0] = [kind5, vs, rng.randint((lo5 + hi5) // 2, hi5) if kind5 == "sum_ge" and rng.random() < 0.6 else rng.randint(lo5, hi5)]
     if circuit_friendly:
         cons[0] = ["circuit", list(range(nv)) if rng.random() < 0.8 else rng.sample(range(nv), nv)]
     solves = [dict(s) for s in SOLVES]
